@@ -77,12 +77,19 @@ class Ctx:
 
     # ------------------------------------------------------------------ known findings
     def _load_known(self):
-        p = os.path.join(ROOT, "known_findings.json")
-        if not os.path.exists(p):
-            return []
-        with open(p) as f:
-            data = json.load(f)
-        return [e for e in data.get("findings", []) if e.get("property") == self.prop]
+        # committed files only; never written at run time
+        paths = [os.path.join(ROOT, "known_findings.json")]
+        d = os.path.join(ROOT, "known_findings.d")
+        if os.path.isdir(d):
+            paths += [os.path.join(d, fn) for fn in sorted(os.listdir(d)) if fn.endswith(".json")]
+        out = []
+        for p in paths:
+            if not os.path.exists(p):
+                continue
+            with open(p) as f:
+                data = json.load(f)
+            out += [e for e in data.get("findings", []) if e.get("property") == self.prop]
+        return out
 
     def known_signature(self, signature):
         for e in self.known:
